@@ -149,6 +149,11 @@ fn main() {
                 }
             }
         }
+        Some("tokens") => {
+            // qv tokens <histories.ndjson> <out.ndjson> [--first-run K]: BloomTokenLog / TokenMemoryCache replay
+            std::panic::set_hook(Box::new(|_| {}));
+            qv_core::tokens::run(&args[2], &args[3]);
+        }
         Some("cc") => {
             std::panic::set_hook(Box::new(|_| {}));
             qv_core::cc::run(&args[2], &args[3]);
